@@ -679,6 +679,7 @@ func newReplacerDataCache(maxSize int) *replacerDataCache {
 func (c *replacerDataCache) get(key string) (*syntax.ReplacerData, bool) {
 	c.mu.Lock()
 	defer c.mu.Unlock()
+	verifPoint("cacheGet", c, c.ll.Len(), len(c.cache))
 
 	if ele, ok := c.cache[key]; ok {
 		c.ll.MoveToFront(ele)
@@ -706,4 +707,5 @@ func (c *replacerDataCache) add(key string, data *syntax.ReplacerData) {
 			delete(c.cache, oldest.Value.(*replacerDataCacheEntry).key)
 		}
 	}
+	verifPoint("cacheAdd", c, c.ll.Len(), len(c.cache))
 }
